@@ -1,7 +1,7 @@
 //! A tool to be used by the client to perform verification on the final product.
 
 use std::{
-    collections::HashMap,
+    collections::{HashMap, HashSet},
     fs,
     path::{Path, PathBuf},
 };
@@ -148,6 +148,9 @@ fn verify_link_signature_thresholds_step(
     pubkeys: &HashMap<KeyId, PublicKey>,
 ) -> Result<HashMap<KeyId, Metablock>> {
     let mut metablocks = HashMap::new();
+    // The keys (not key ids) with an accepted signature: a key listed under
+    // several ids is still one functionary.
+    let mut signer_keys: HashSet<&[u8]> = HashSet::new();
     #[cfg(all(in_toto_verif, not(in_toto_verif_nosites)))]
     let links = &crate::verif_hooks::view(links, "A");
 
@@ -164,8 +167,8 @@ fn verify_link_signature_thresholds_step(
             continue;
         }
         if let Some(authorized_key) = pubkeys.get(signer_key_id) {
-            let authorized_key = vec![authorized_key];
-            if link_metablock.verify(1, authorized_key).is_ok() {
+            if link_metablock.verify(1, vec![authorized_key]).is_ok() {
+                signer_keys.insert(authorized_key.as_bytes());
                 metablocks
                     .insert(signer_key_id.clone(), link_metablock.clone());
             }
@@ -174,13 +177,13 @@ fn verify_link_signature_thresholds_step(
         // thus no cert relative operations will be performed.
     }
 
-    if metablocks.len() < step.threshold as usize {
+    if signer_keys.len() < step.threshold as usize {
         return Err(Error::VerificationFailure(
             format!(
                 "step '{}' requires {} link metadata file(s). {} out of {} available link(s) have a valid signature from an authorized signer",
                 step.name,
                 step.threshold,
-                metablocks.len(),
+                signer_keys.len(),
                 links.len(),
             )
         ));
